@@ -181,8 +181,29 @@ class BuiltinMixin:
 
     def b_sorted(self, args, kw, st, exits, line):
         v = args[0]
+        if 'reverse' in kw:
+            raise Unsupported('sorted with reverse')
+        if not isinstance(v.ty, TSet):
+            # a permutation of the input (the order itself is not modelled; the key function is assumed pure and total)
+            src = self.seq_of(v, st)
+            if isinstance(src.ty, TSeq) and src.ty.elem is NONE:
+                return src
+            out = fresh(src.ty, 'sorted')
+            n = z3.Length(src.t)
+            perm = z3.Function(fresh_name('perm'), z3.IntSort(), z3.IntSort())
+            inv = z3.Function(fresh_name('perminv'), z3.IntSort(), z3.IntSort())
+            i = z3.Int(fresh_name('i'))
+            st.assume(z3.Length(out.t) == n)
+            st.assume(z3.ForAll([i], z3.Implies(z3.And(i >= 0, i < n),
+                                               z3.And(perm(i) >= 0, perm(i) < n, out.t[i] == src.t[perm(i)], inv(perm(i)) == i)),
+                                patterns=[out.t[i]]))
+            st.assume(z3.ForAll([i], z3.Implies(z3.And(i >= 0, i < n),
+                                               z3.And(inv(i) >= 0, inv(i) < n, perm(inv(i)) == i)), patterns=[inv(i)]))
+            if 'key' in kw:
+                self.assumptions_used['sorted:key'] = 'sort key functions are pure and total'
+            return out
         if kw:
-            raise Unsupported('sorted with key/reverse')
+            raise Unsupported('sorted of a set with key')
         if isinstance(v.ty, TSet):
             # some ordering of the members (the order itself is not modelled): same size, same members
             f = self.UF('sorted_set_' + _san(v.ty.key), v.ty.sort(), z3.SeqSort(v.ty.elem.sort()))
@@ -345,6 +366,9 @@ class BuiltinMixin:
             why = 'str.replace(a, b) with literal a, b: length and first character (CPython semantics, bounded-validated)'
             if len(sb) >= len(sa) >= 1:
                 self.fact(z3.Length(out.t) >= z3.Length(r.t), why)
+            if len(sa) == 1 and sa not in sb:
+                # every occurrence of a single character replaced by text without it: none is left
+                self.fact(z3.Not(z3.Contains(out.t, a)), why)
             if len(sa) == 1 and len(sb) >= 1:
                 self.fact(z3.Implies(z3.Length(r.t) > 0,
                                      z3.SubString(out.t, 0, 1) == z3.If(z3.SubString(r.t, 0, 1) == a,
